@@ -1,7 +1,574 @@
 package main
 
-import "golang.org/x/tools/go/ssa"
+import (
+	"bufio"
+	"encoding/json"
+	"flag"
+	"fmt"
+	"os"
+	"path/filepath"
+	"regexp"
+	"sort"
+	"strconv"
+	"strings"
+	"sync"
+	"time"
+
+	"golang.org/x/tools/go/ssa"
+)
 
 type ssaFn = ssa.Function
 
-func cmdCheck(args []string) int { return 2 }
+type Finding struct {
+	Fixed      bool
+	Prop       string
+	Obligation string
+	When       string
+	Desc       string
+	Line       string
+}
+
+var findingRe = regexp.MustCompile(`^finding:\s+property=(\S+)\s+obligation=(\S+)\s+when=(.*?)\s+::\s+(.*)$`)
+var fixedRe = regexp.MustCompile(`^fixed:\s+property=(\S+)\s+(\S+)\s+(.*)$`)
+
+func loadFindings(path string) ([]*Finding, error) {
+	f, err := os.Open(path)
+	if err != nil {
+		if os.IsNotExist(err) {
+			return nil, nil
+		}
+		return nil, err
+	}
+	defer f.Close()
+	var out []*Finding
+	sc := bufio.NewScanner(f)
+	for sc.Scan() {
+		l := strings.TrimSpace(sc.Text())
+		if l == "" || strings.HasPrefix(l, "#") {
+			continue
+		}
+		if m := findingRe.FindStringSubmatch(l); m != nil {
+			out = append(out, &Finding{Prop: m[1], Obligation: m[2], When: m[3], Desc: m[4], Line: l})
+			continue
+		}
+		if m := fixedRe.FindStringSubmatch(l); m != nil {
+			out = append(out, &Finding{Fixed: true, Prop: m[1], Desc: m[3], Line: l})
+			continue
+		}
+		return nil, fmt.Errorf("known-findings: cannot parse %q", l)
+	}
+	return out, nil
+}
+
+func loadLock(path string) (map[string]map[string]bool, error) {
+	lock := map[string]map[string]bool{}
+	f, err := os.Open(path)
+	if err != nil {
+		if os.IsNotExist(err) {
+			return lock, nil
+		}
+		return nil, err
+	}
+	defer f.Close()
+	sc := bufio.NewScanner(f)
+	sc.Buffer(make([]byte, 1<<20), 1<<20)
+	for sc.Scan() {
+		l := strings.TrimSpace(sc.Text())
+		if l == "" || strings.HasPrefix(l, "#") {
+			continue
+		}
+		p, name, ok := strings.Cut(l, " ")
+		if !ok {
+			continue
+		}
+		if lock[p] == nil {
+			lock[p] = map[string]bool{}
+		}
+		lock[p][name] = true
+	}
+	return lock, nil
+}
+
+func hasProp(ps []string, p string) bool {
+	for _, x := range ps {
+		if x == p {
+			return true
+		}
+	}
+	return false
+}
+
+type fnResult struct {
+	key string
+	fc  *FnCtx
+}
+
+// runProperty generates and solves everything for one property.
+func runProperty(g *Gen, prop string, cfg SolverCfg, findings []*Finding) ([]*fnResult, []string, error) {
+	keys, missing := g.selectFunctions(map[string]bool{prop: true})
+	g.prepareFrames(keys)
+	results := make([]*fnResult, len(keys))
+	var wg sync.WaitGroup
+	// generation is sequential (shared type/array registries); solving is parallel
+	for i, k := range keys {
+		fn := g.funcs[k]
+		con := g.contracts[k]
+		fc := g.genFunction(fn, con, !con.NoSafety)
+		results[i] = &fnResult{key: k, fc: fc}
+		if fc.err != nil {
+			continue
+		}
+		// keep only this property's obligations
+		var mine []*Obligation
+		for _, o := range fc.obls {
+			if hasProp(o.Props, prop) {
+				mine = append(mine, o)
+			}
+		}
+		// known-finding twins: the obligation restricted to inputs outside the recorded region
+		for _, f := range findings {
+			if f.Fixed || f.Prop != prop {
+				continue
+			}
+			for _, o := range mine {
+				if o.Name() != f.Obligation {
+					continue
+				}
+				e, err := parseExpr(f.When)
+				if err != nil {
+					return nil, nil, fmt.Errorf("known-findings: %q: %v", f.When, err)
+				}
+				env := fc.selfEnv(fc.entry, fc.entry, nil)
+				w, err := fc.evalBool(env, g.expandMacros(e, 0))
+				if err != nil {
+					return nil, nil, fmt.Errorf("known-findings: %q: %v", f.When, err)
+				}
+				twin := &Obligation{Fn: o.Fn, Kind: o.Kind, Label: o.Label + "!outside-known", Goal: implies(not(w), o.Goal), NAsserts: len(fc.q.asserts), Pos: o.Pos, Props: o.Props, Inputs: o.Inputs}
+				mine = append(mine, twin)
+				break
+			}
+		}
+		sort.SliceStable(mine, func(a, b int) bool { return mine[a].NAsserts < mine[b].NAsserts })
+		fc.obls = mine
+	}
+	sem := make(chan struct{}, 4)
+	for _, r := range results {
+		if r.fc.err != nil {
+			continue
+		}
+		wg.Add(1)
+		sem <- struct{}{}
+		go func(fc *FnCtx) {
+			defer wg.Done()
+			defer func() { <-sem }()
+			solveFunction(fc, cfg)
+		}(r.fc)
+	}
+	wg.Wait()
+	return results, missing, nil
+}
+
+type propMeta struct {
+	level string
+}
+
+func cmdCheck(args []string) int {
+	fs := flag.NewFlagSet("check", flag.ExitOnError)
+	repo := fs.String("repo", "/repo", "repository")
+	verif := fs.String("verif", "/verif", "verif dir")
+	level := fs.String("level", "proof", "evidence level")
+	updateLock := fs.Bool("update-lock", false, "rewrite this property's part of obligations.lock from this run")
+	fs.Parse(args)
+	if fs.NArg() < 1 {
+		fmt.Fprintln(os.Stderr, "usage: govc check [flags] <PROP> [quick|thorough]")
+		return 2
+	}
+	prop := fs.Arg(0)
+	tier := "quick"
+	if fs.NArg() > 1 {
+		tier = fs.Arg(1)
+	}
+	if t := os.Getenv("VERIF_TIER"); t != "" && fs.NArg() < 2 {
+		tier = t
+	}
+	seed := 0
+	if s := os.Getenv("VERIF_SEED"); s != "" {
+		seed, _ = strconv.Atoi(s)
+	}
+	t0 := time.Now()
+	work := filepath.Join(*verif, "work", prop)
+	os.RemoveAll(work)
+	os.MkdirAll(work, 0o755)
+	cfg := SolverCfg{QueryTimeout: 10 * time.Second, IncTimeoutMs: 2500, WorkDir: work, Jobs: 4}
+	if tier == "thorough" {
+		cfg.QueryTimeout = 60 * time.Second
+		cfg.IncTimeoutMs = 10000
+		cfg.CrossCheck = true
+	}
+	undecided := func(reason string) int {
+		fmt.Printf("UNDECIDED property=%s reason=%s\n", prop, reason)
+		return 2
+	}
+	g := newGen()
+	if err := g.load(*repo, defaultPatterns); err != nil {
+		return undecided(strings.ReplaceAll(err.Error(), "\n", " | "))
+	}
+	findings, err := loadFindings(filepath.Join(*verif, "known-findings.txt"))
+	if err != nil {
+		return undecided(err.Error())
+	}
+	lock, err := loadLock(filepath.Join(*verif, "obligations.lock"))
+	if err != nil {
+		return undecided(err.Error())
+	}
+	results, missing, err := runProperty(g, prop, cfg, findings)
+	if err != nil {
+		return undecided(err.Error())
+	}
+	if len(missing) > 0 {
+		return undecided("contract targets not found in the code: " + strings.Join(missing, ","))
+	}
+	if len(results) == 0 {
+		return undecided("no function under contract for this property")
+	}
+	// collect
+	var all []*Obligation
+	byName := map[string]*Obligation{}
+	fcOf := map[*Obligation]*FnCtx{}
+	var fnNames []string
+	abstracted := map[string]bool{}
+	trustedSet := map[string]bool{}
+	for _, r := range results {
+		if r.fc.err != nil {
+			return undecided(strings.ReplaceAll(r.fc.err.Error(), "\n", " | "))
+		}
+		fnNames = append(fnNames, r.key)
+		for a := range r.fc.abstracted {
+			abstracted[shortKey(r.key)+": "+a] = true
+		}
+		for a := range r.fc.trustedSet {
+			trustedSet[a] = true
+		}
+		for _, o := range r.fc.obls {
+			all = append(all, o)
+			byName[o.Name()] = o
+			fcOf[o] = r.fc
+		}
+	}
+	// cross-check in the thorough tier: every discharged obligation is re-proved standalone by a second back end
+	crossChecked, crossFailed := 0, 0
+	var crossNotes []string
+	if cfg.CrossCheck {
+		crossChecked, crossFailed, crossNotes = crossCheck(all, fcOf, cfg)
+	}
+	// verdicts
+	locked := lock[prop]
+	nViol := 0
+	var knownLines, violLines, notes []string
+	discharged, expected := 0, 0
+	byKind := map[string]int{}
+	byBackend := map[string]int{}
+	solverTime := 0.0
+	var undecidedNames []string
+	var knownOut []map[string]string
+	replayDir := filepath.Join(*verif, "replays", prop)
+	os.RemoveAll(replayDir)
+	isTwin := func(o *Obligation) bool { return strings.HasSuffix(o.Label, "!outside-known") }
+	for _, o := range all {
+		solverTime += o.TimeS
+		if isTwin(o) {
+			continue
+		}
+		var finding *Finding
+		for _, f := range findings {
+			if !f.Fixed && f.Prop == prop && f.Obligation == o.Name() {
+				finding = f
+			}
+		}
+		if finding != nil {
+			twin := byName[o.Name()+"!outside-known"]
+			switch {
+			case o.Verdict == "discharged":
+				notes = append(notes, fmt.Sprintf("known finding no longer reproduces (obligation now discharged): %s", o.Name()))
+				discharged++
+				expected++
+			case twin != nil && twin.Verdict == "discharged":
+				knownLines = append(knownLines, fmt.Sprintf("KNOWN-FINDING: property=%s %s [%s when %s]", prop, finding.Desc, o.Name(), finding.When))
+				knownOut = append(knownOut, map[string]string{"obligation": o.Name(), "when": finding.When, "what": finding.Desc, "verdict": o.Verdict, "outside_known_region": "discharged by " + twin.Solver})
+				byKind["known-finding"]++
+			default:
+				// fails outside the recorded region too: a different violation
+				nViol++
+				src := o
+				if twin != nil && twin.Verdict == "refuted" {
+					src = twin
+				}
+				p := writeReplay(replayDir, prop, src, fcOf[o], "violation outside the recorded known-finding region")
+				violLines = append(violLines, violationLine(prop, p, src, fcOf[o], *verif))
+			}
+			continue
+		}
+		inLock := locked[o.Name()]
+		if o.Verdict == "discharged" {
+			discharged++
+			expected++
+			byKind[o.Kind]++
+			byBackend[o.Solver]++
+			continue
+		}
+		if !inLock && !*updateLock && len(locked) > 0 {
+			// never claimed: reported in evidence, not counted, not an alarm
+			undecidedNames = append(undecidedNames, o.Name()+" ("+o.Verdict+", not in lock)")
+			continue
+		}
+		if *updateLock {
+			undecidedNames = append(undecidedNames, o.Name()+" ("+o.Verdict+")")
+			continue
+		}
+		expected++
+		nViol++
+		p := writeReplay(replayDir, prop, o, fcOf[o], "")
+		violLines = append(violLines, violationLine(prop, p, o, fcOf[o], *verif))
+	}
+	// locked obligations that vanished
+	var vanished []string
+	for name := range locked {
+		if _, ok := byName[name]; !ok {
+			vanished = append(vanished, name)
+		}
+	}
+	sort.Strings(vanished)
+	if *updateLock {
+		if err := rewriteLock(filepath.Join(*verif, "obligations.lock"), prop, all, findings); err != nil {
+			return undecided(err.Error())
+		}
+		vanished = nil
+	}
+	// evidence
+	sort.Strings(fnNames)
+	samples := []map[string]any{}
+	for i, o := range all {
+		if i%maxInt(1, len(all)/8) == 0 && len(samples) < 10 {
+			samples = append(samples, map[string]any{"obligation": o.Name(), "verdict": o.Verdict, "backend": o.Solver, "at": o.Pos.String(), "assertions_in_scope": o.NAsserts})
+		}
+	}
+	assumptions := []string{
+		"integers are mathematical (no wrap-around); values read from parameters/heap are assumed inside their Go type's range",
+		"memory model: per-(struct,field) heap arrays indexed by (base,offset) references; pointers to scalar struct fields do not escape; unsafe/cgo absent",
+		"append always yields a fresh backing array (in-place aliasing through spare capacity is not modelled)",
+		"callees without a contract: results unconstrained, frame inferred from their SSA (external callees: pure list or havoc-all); callee panics/non-termination are the callee's own obligations",
+		"single-threaded semantics (sync primitives are no-ops); termination not proved",
+		"strings are an uninterpreted sort with distinct literals; fmt.Sprintf/strconv as uninterpreted functions with the listed axioms",
+		"go/types + go/ssa (x/tools v0.29.0), this VC generator and the SMT solvers are trusted",
+	}
+	for k := range g.contracts {
+		c := g.contracts[k]
+		if c.Extern || c.Assumed {
+			assumptions = append(assumptions, "assumed contract (not verified against a body): "+k)
+		}
+	}
+	cov := map[string]any{
+		"obligations":              expected,
+		"discharged":               discharged,
+		"checker_cmd":              fmt.Sprintf("/verif/bin/govc check %s %s  (VCs from go/ssa of /repo's working tree; z3 4.8.12 incremental, then portfolio z3 4.8.12 / z3 5.1.0 / cvc5 1.0)", prop, tier),
+		"trusted_base":             append(sortedKeys(trustedSet), "SMT solvers z3 4.8.12, z3 5.1.0, cvc5 1.0", "golang.org/x/tools/go/ssa v0.29.0", "govc VC generator (/verif/govc)"),
+		"functions_under_contract": fnNames,
+		"obligations_by_kind":      byKind,
+		"by_backend":               byBackend,
+		"solver_time_s":            round2(solverTime),
+		"undecided_not_claimed":    undecidedNames,
+		"known_findings":           knownOut,
+		"abstracted":               sortedKeys(abstracted),
+		"uncontracted_callees":     sortedKeys(g.uncontracted),
+		"samples":                  samples,
+		"vanished_locked":          vanished,
+		"notes":                    notes,
+		"lock_size":                len(locked),
+	}
+	if cfg.CrossCheck {
+		cov["cross_checked_on_second_backend"] = crossChecked
+		cov["cross_check_disagreements"] = crossFailed
+		cov["cross_check_notes"] = crossNotes
+	}
+	ev := map[string]any{
+		"property_id": prop, "tier": tier, "seed": seed, "level": *level, "coverage": cov,
+		"assumptions": assumptions, "wall_s": round2(time.Since(t0).Seconds()), "violations": nViol,
+	}
+	if *level == "other" {
+		cov["explanation"] = "contract-based deductive verification: see obligations/discharged and the property's level_note in MANIFEST.json for which clauses are covered"
+	}
+	os.MkdirAll(filepath.Join(*verif, "evidence"), 0o755)
+	b, _ := json.MarshalIndent(ev, "", " ")
+	if err := os.WriteFile(filepath.Join(*verif, "evidence", prop+".json"), b, 0o644); err != nil {
+		return undecided(err.Error())
+	}
+	for _, l := range knownLines {
+		fmt.Println(l)
+	}
+	for _, l := range notes {
+		fmt.Println("NOTE:", l)
+	}
+	fmt.Printf("property %s (%s): %d functions under contract, %d/%d obligations discharged, %d known finding(s), %d not claimed, %.1fs\n", prop, tier, len(fnNames), discharged, expected, len(knownLines), len(undecidedNames), time.Since(t0).Seconds())
+	if crossFailed > 0 {
+		fmt.Printf("UNDECIDED property=%s reason=back ends disagree on %d obligation(s): %s\n", prop, crossFailed, strings.Join(crossNotes, "; "))
+		return 2
+	}
+	if len(vanished) > 0 {
+		fmt.Printf("UNDECIDED property=%s reason=%d locked obligation(s) were not generated (function or clause removed/renamed?): %s\n", prop, len(vanished), strings.Join(vanished[:minInt(3, len(vanished))], ","))
+		return 2
+	}
+	if nViol > 0 {
+		for _, l := range violLines {
+			fmt.Println(l)
+		}
+		return 1
+	}
+	return 0
+}
+
+func shortKey(k string) string { return k[strings.LastIndex(k, "/")+1:] }
+func round2(f float64) float64 { return float64(int(f*100+0.5)) / 100 }
+func maxInt(a, b int) int {
+	if a > b {
+		return a
+	}
+	return b
+}
+func minInt(a, b int) int {
+	if a < b {
+		return a
+	}
+	return b
+}
+
+func violationLine(prop, path string, o *Obligation, fc *FnCtx, verif string) string {
+	suffix := ""
+	if !o.replayed {
+		suffix = " no-failing-input-found"
+	}
+	return fmt.Sprintf("VIOLATION property=%s replay=%s obligation=%s verdict=%s%s", prop, path, o.Name(), o.Verdict, suffix)
+}
+
+func writeReplay(dir, prop string, o *Obligation, fc *FnCtx, note string) string {
+	os.MkdirAll(dir, 0o755)
+	base := sanitize(shortKey(o.Name()))
+	if len(base) > 150 {
+		base = fmt.Sprintf("%s_%x", base[:120], hashStr(o.Name()))
+	}
+	path := filepath.Join(dir, base+".json")
+	inputs := map[string]string{}
+	lits := fc.q.litTable()
+	for _, in := range o.Inputs {
+		if v, ok := o.Model[in.Term]; ok {
+			inputs[in.Path] = renderValue(v, lits)
+		}
+	}
+	qfile := filepath.Join(dir, base+".smt2")
+	os.WriteFile(qfile, []byte(fc.queryText(o, true)), 0o644)
+	rec := map[string]any{
+		"property": prop, "obligation": o.Name(), "kind": o.Kind, "verdict": o.Verdict, "function": o.Fn, "position": o.Pos.String(),
+		"failed_obligation_meaning": "the VC generated from /repo's current source for this contract clause / safety condition is not valid",
+		"solver": o.Solver, "solver_output": o.Raw, "inputs": inputs, "smt_query": qfile, "note": note,
+	}
+	// replay on the real code when an adapter exists
+	if o.Verdict == "refuted" && fc.con != nil {
+		if out, ok, ran := tryReplay(fc, o, inputs); ran {
+			rec["replay_ran"] = true
+			rec["replay_reproduced"] = ok
+			rec["replay_output"] = out
+			o.replayed = ok
+		}
+	}
+	b, _ := json.MarshalIndent(rec, "", " ")
+	os.WriteFile(path, b, 0o644)
+	return path
+}
+
+var litRefRe = regexp.MustCompile(`lit_[0-9a-z]+`)
+
+func renderValue(v string, lits map[string]string) string {
+	return litRefRe.ReplaceAllStringFunc(v, func(s string) string {
+		if t, ok := lits[s]; ok {
+			return strconv.Quote(t)
+		}
+		return s
+	})
+}
+
+func rewriteLock(path, prop string, all []*Obligation, findings []*Finding) error {
+	lock, err := loadLock(path)
+	if err != nil {
+		return err
+	}
+	lock[prop] = map[string]bool{}
+	for _, o := range all {
+		if strings.HasSuffix(o.Label, "!outside-known") {
+			continue
+		}
+		isFinding := false
+		for _, f := range findings {
+			if !f.Fixed && f.Prop == prop && f.Obligation == o.Name() {
+				isFinding = true
+			}
+		}
+		if o.Verdict == "discharged" || isFinding {
+			lock[prop][o.Name()] = true
+		}
+	}
+	var lines []string
+	for p, m := range lock {
+		for n := range m {
+			lines = append(lines, p+" "+n)
+		}
+	}
+	sort.Strings(lines)
+	return os.WriteFile(path, []byte("# property obligation  -- obligations that must be generated and discharged (written by `govc check -update-lock`)\n"+strings.Join(lines, "\n")+"\n"), 0o644)
+}
+
+// crossCheck re-proves discharged obligations standalone on a different back end.
+func crossCheck(all []*Obligation, fcOf map[*Obligation]*FnCtx, cfg SolverCfg) (int, int, []string) {
+	var mu sync.Mutex
+	checked, failed := 0, 0
+	var notes []string
+	var wg sync.WaitGroup
+	sem := make(chan struct{}, 12)
+	for _, o := range all {
+		if o.Verdict != "discharged" || o.MustSat {
+			continue
+		}
+		wg.Add(1)
+		sem <- struct{}{}
+		go func(o *Obligation) {
+			defer wg.Done()
+			defer func() { <-sem }()
+			fc := fcOf[o]
+			file := filepath.Join(cfg.WorkDir, fmt.Sprintf("x_%x.smt2", hashStr(o.Name())))
+			txt := fc.queryText(o, false)
+			os.WriteFile(file, []byte(txt), 0o644)
+			second := solvers[2]
+			if strings.Contains(txt, "(lambda ") {
+				second = solvers[1]
+			}
+			out, _ := runSolver(contextBG(), second.bin, second.args, file, 30*time.Second)
+			v := firstVerdict(out)
+			mu.Lock()
+			defer mu.Unlock()
+			switch v {
+			case "unsat":
+				checked++
+			case "sat":
+				failed++
+				notes = append(notes, o.Name()+": "+second.name+" says sat")
+			default:
+				notes = append(notes, o.Name()+": "+second.name+" "+v)
+			}
+			os.Remove(file)
+		}(o)
+	}
+	wg.Wait()
+	sort.Strings(notes)
+	if len(notes) > 20 {
+		notes = append(notes[:20], fmt.Sprintf("... %d more", len(notes)-20))
+	}
+	return checked, failed, notes
+}
